@@ -27,6 +27,7 @@ struct SRun
   std::string sig; // schedule signature (hash input)
   uint64_t sig_hash{1469598103934665603ull};
   bool failed{false};
+  uint64_t last_evs{0}, last_idle{0}, polls_without_progress{0};
 
   SRun(World& w, Rng& rr) : world(w), r(rr)
   {
@@ -101,6 +102,29 @@ struct SRun
     s.exited = true;
   }
 
+  // Let one parked worker finish its operation: time passes, the backend polls, the worker retries.
+  // Same logical progress verdict as drain().
+  bool wait_for(SW& s, char const* family, uint64_t limit = 1000)
+  {
+    uint64_t const grace_ns = static_cast<uint64_t>(world.bo.log_timestamp_ordering_grace_period.count()) * 1000ull;
+    while (s.w->parked())
+    {
+      vclock_jump(grace_ns + 10);
+      poll();
+      if (resume(s)) return true;
+      uint64_t idles = g_idle_cycles.load() - s.pending_since_idle;
+      if (idles > limit)
+      {
+        bool flush = s.w->park_point == qv::FE_FLUSH_WAIT || s.pending_what == "flush_log";
+        violation(flush ? "C06" : "C09", flush ? "flush-never-returns-with-idle-backend" : "blocked-call-never-resumes-with-idle-backend",
+                  J{}.unum("tid", s.tid).str("op", s.pending_what).unum("backend_idle_cycles_since_call", idles).str("family", family).raw("cfg", world.describe()));
+        failed = true;
+        return false;
+      }
+    }
+    return true;
+  }
+
   // End of scenario: let every parked worker finish and drain everything.
   // Progress verdicts are logical: a worker still parked in the blocked-retry / flush-wait loop after the backend has
   // reported "all queues and buffers empty" `limit` consecutive times is stuck (nothing is ahead of it).
@@ -120,7 +144,7 @@ struct SRun
           uint64_t idles = g_idle_cycles.load() - s->pending_since_idle;
           if (idles > limit)
           {
-            bool flush = s->w->park_point == qv::FE_FLUSH_WAIT;
+            bool flush = s->w->park_point == qv::FE_FLUSH_WAIT || s->pending_what == "flush_log";
             violation(flush ? "C06" : "C09", flush ? "flush-never-returns-with-idle-backend" : "blocked-call-never-resumes-with-idle-backend",
                       J{}.unum("tid", s->tid).str("op", s->pending_what).unum("backend_idle_cycles_since_call", idles).str("family", family).raw("cfg", world.describe()));
             failed = true;
@@ -129,6 +153,15 @@ struct SRun
         }
       }
       uint64_t const idle_before = g_idle_cycles.load();
+      // livelock verdict (logical): the backend keeps polling, nothing reaches a sink and it never goes idle
+      uint64_t const evs_now = recorder().evs.size();
+      if (evs_now != last_evs || idle_before != last_idle) { last_evs = evs_now; last_idle = idle_before; polls_without_progress = 0; }
+      else if (++polls_without_progress > 30000)
+      {
+        violation("C10", "backend-makes-no-progress", J{}.unum("polls_without_progress", polls_without_progress).unum("notifier_messages", recorder().notes.size()).str("last_note", recorder().notes.empty() ? "" : recorder().notes.back().second.substr(0, 200)).str("family", family).raw("cfg", world.describe()));
+        failed = true;
+        return false;
+      }
       poll();
       if (!any_parked && g_idle_cycles.load() != idle_before)
       {
